@@ -326,6 +326,61 @@ fn formula_grid(run: &Run) {
     let _ = BigInt::from(0);
 }
 
+/// Two chains of one network in one process that hold the same coin under different headers at its creation height (chain B's
+/// block 1 carries one more transaction): a proof made for chain A's header must not mint on chain B, whatever chain A did before.
+fn sibling_chains(run: &Run) {
+    let eng = Engine::new(run);
+    let split = tx_t(TxKind::Normal, vec![CoinID::zero_zero()], vec![out_t(400_000_000, Denom::Mel), out_t(600_000_000, Denom::Mel)], 0, vec![0x51]);
+    let extra = tx_t(TxKind::Faucet, vec![], vec![out_t(5, Denom::Mel)], 0, vec![0x52]);
+    let coin = split.output_coinid(0);
+    let mut chains = vec![];
+    for txs in [vec![split.clone()], vec![split.clone(), extra.clone()]] {
+        let (_w, rootn) = root(NetID::Custom02, 0, false);
+        let mut node = Some(rootn);
+        for a in [Action::Open, Action::Batch { label: format!("block 1 of {} transactions", txs.len()), txs: txs.clone(), expect_ok: true }, Action::Seal(None)] {
+            node = match node.as_ref().map(|n| eng.step(n, &a)) {
+                Some(StepOut::Next(x)) => Some(x),
+                _ => None,
+            };
+        }
+        match node {
+            Some(n) => chains.push(n),
+            None => return,
+        }
+    }
+    let hdr: Vec<melstructs::Header> = chains.iter().map(|c| c.view().header()).collect();
+    if hdr[0].hash() == hdr[1].hash() {
+        run.outcome("sibling-chains:headers-equal(vacuous)");
+        return;
+    }
+    for (d, tip910) in [(8u32, false), (3, true)] {
+        let proofs: Vec<Vec<u8>> = hdr
+            .iter()
+            .map(|h| {
+                let pz = puzzle(h, &coin);
+                if tip910 { melpow::Proof::generate(&pz, d as usize, Tip910Hash).to_bytes() } else { melpow::Proof::generate(&pz, d as usize, LegacyHash).to_bytes() }
+            })
+            .collect();
+        // chain A first (its own proof, then B's), then chain B (A's proof, then its own)
+        for (ci, order) in [(0usize, [0usize, 1]), (1, [0, 1])] {
+            let open = match eng.step(&chains[ci], &Action::Open) {
+                StepOut::Next(x) => x,
+                _ => continue,
+            };
+            for pi in order {
+                let own = pi == ci;
+                let a = Action::Batch { label: format!("chain {}: mint of the shared coin with the proof made for chain {} (d={} {})", ci, pi, d, if tip910 { "tip910" } else { "legacy" }), txs: vec![mint_tx(coin, 400_000_000, d, &proofs[pi], 0, false)], expect_ok: own };
+                run.state();
+                match eng.step(&open, &a) {
+                    StepOut::Next(_) => run.outcome(if own { "sibling-chains:own-proof-accepted" } else { "sibling-chains:foreign-proof-accepted" }),
+                    StepOut::Rejected => run.outcome(if own { "sibling-chains:own-proof-rejected" } else { "sibling-chains:foreign-proof-rejected" }),
+                    StepOut::Pruned => run.outcome("sibling-chains:engine-reported"),
+                }
+            }
+        }
+    }
+}
+
 /// Supplement, *sampling* (labelled so in the evidence): the inflator is served from a process-wide table that grows on demand;
 /// several threads ask for heights the process has not seen yet, at the same time, and every answer is compared with the
 /// recurrence.  Thread interleavings inside the table's lock hand-over cannot be enumerated here (parking_lot is not interceptable).
@@ -388,6 +443,7 @@ pub fn run(run: &Run) {
         run_world(run, NetID::Testnet, &[1, 2, 100], &[(2, false), (16, false), (3, true)], thorough);
     }
     formula_grid(run);
+    sibling_chains(run);
     concurrent_inflator_lookups(run, thorough);
     run.set("ages", json!({"custom02": ages, "mainnet": m_ages}));
     run.set("difficulties", json!(diffs.iter().map(|(d, t)| format!("{}{}", d, if *t { "/tip910" } else { "/legacy" })).collect::<Vec<_>>()));
